@@ -13,9 +13,9 @@ BASE_NOTE = ("Trusted: Lean 4.33 kernel; axioms limited to propext/Classical.cho
 
 HOLD = {}
 SRC_PROPS: list = []
-SRC_THEOREMS = ("src_html_escape, src_normalize_text, src_add (HTML.__add__/__radd__), src_normalize_attr_name/_value, src_setitem, "
-                "src_update (TagAttrDict.update), src_render_tag / src_render_list (Tag/TagList.get_html_string, all trees, by "
-                "induction on nesting depth), and the theorems of the area files")
+SRC_THEOREMS = ("one tie theorem per translated function, e.g. src_html_escape, src_update (TagAttrDict.update), src_render_tag / "
+                "src_render_list (Tag/TagList.get_html_string, all trees, by induction on nesting depth); harness/mksrctable.py "
+                "prints the full table function -> theorems")
 
 
 def load_claims():
